@@ -8,37 +8,37 @@ import Tw.Proofs.SnapMgrSys
 
 namespace Tw.Snap
 
-theorem chain_trans {size : TypeId → Nat} {a b c : Builder} (h1 : Chain size a b) (h2 : Chain size b c) :
+theorem chain_trans {size : TypeId → Nat → Nat} {a b c : Builder} (h1 : Chain size a b) (h2 : Chain size b c) :
     Chain size a c := by
   induction h2 with
   | refl => exact h1
   | tail _ hs ih => exact Chain.tail ih hs
 
 /-- `s` was made by a builder on a chain from `Builder::new()` -/
-def Built (size : TypeId → Nat) (s : Snap) : Prop :=
+def Built (size : TypeId → Nat → Nat) (s : Snap) : Prop :=
   ∃ b, Chain size Builder.new b ∧ b.snap = s
 
 /-- `t` was made by continuing (zero or more times) from the builder that made `s` -/
-def Anc (size : TypeId → Nat) (s t : Snap) : Prop :=
+def Anc (size : TypeId → Nat → Nat) (s t : Snap) : Prop :=
   ∃ a b, Chain size Builder.new a ∧ Chain size a b ∧ a.snap = s ∧ b.snap = t
 
-theorem Anc.built_left {size : TypeId → Nat} {s t : Snap} (h : Anc size s t) : Built size s := by
+theorem Anc.built_left {size : TypeId → Nat → Nat} {s t : Snap} (h : Anc size s t) : Built size s := by
   obtain ⟨a, _, h0, _, hs, _⟩ := h; exact ⟨a, h0, hs⟩
 
-theorem Built.anc_self {size : TypeId → Nat} {s : Snap} (h : Built size s) : Anc size s s := by
+theorem Built.anc_self {size : TypeId → Nat → Nat} {s : Snap} (h : Built size s) : Anc size s s := by
   obtain ⟨b, h0, hs⟩ := h; exact ⟨b, b, h0, Chain.refl b, hs, hs⟩
 
-theorem built_empty (size : TypeId → Nat) : Built size Snap.empty := ⟨Builder.new, Chain.refl _, rfl⟩
+theorem built_empty (size : TypeId → Nat → Nat) : Built size Snap.empty := ⟨Builder.new, Chain.refl _, rfl⟩
 
-theorem chain_inv_new {size : TypeId → Nat} {b : Builder} (h : Chain size Builder.new b) :
+theorem chain_inv_new {size : TypeId → Nat → Nat} {b : Builder} (h : Chain size Builder.new b) :
     b.Inv ∧ Sized size b.snap := by
   obtain ⟨h1, h2, _⟩ := chain_inv h Builder.new_inv (sized_new size)
   exact ⟨h1, h2⟩
 
-/-- what the application may add: a valid type, a `u16` id, `i32` data of the size of the type -/
-def ItemOk (size : TypeId → Nat) (it : TypeId × Nat × List Int) : Prop :=
+/-- what the application may add: a valid type, a `u16` id, `i32` data of the size fixed for that `(type, id)` -/
+def ItemOk (size : TypeId → Nat → Nat) (it : TypeId × Nat × List Int) : Prop :=
   it.1.Valid ∧ (∀ o, it.1 = .ordinal o → 0 < o ∧ o < offsetExt) ∧ it.2.1 < 65536 ∧
-    (∀ x ∈ it.2.2, I32 x) ∧ it.2.2.length = size it.1
+    (∀ x ∈ it.2.2, I32 x) ∧ it.2.2.length = size it.1 it.2.1
 
 theorem addItem_ne_none {b : Builder} (hb : b.Inv) {tid : TypeId} {id : Nat} {data : List Int}
     (ho : ∀ o, tid = .ordinal o → 0 < o ∧ o < offsetExt) : b.addItem tid id data ≠ none := by
@@ -68,7 +68,7 @@ namespace Tw.SnapMgr
 open Tw.Snap Tw.SnapXfer
 
 /-- the application's calls never panic and extend the chain -/
-theorem addItems_ok {size : TypeId → Nat} : ∀ (items : List Item) (b0 b : Builder),
+theorem addItems_ok {size : TypeId → Nat → Nat} : ∀ (items : List Item) (b0 b : Builder),
     Chain size Builder.new b0 → Chain size b0 b → (∀ it, it ∈ items → ItemOk size it) →
     ∃ r, addItems b items = .ok r ∧
       ∀ s, r = .ok s → ∃ c, Chain size b0 c ∧ c.snap = s := by
@@ -96,7 +96,7 @@ theorem addItems_ok {size : TypeId → Nat} : ∀ (items : List Item) (b0 b : Bu
 
 /-- `new_builder()`, the application's calls, `finish()`: no panic, and the result continues the
 chain of the seed -/
-theorem build_ok {size : TypeId → Nat} {seed : Tw.Snap.Snap} {items : List Item} {b0 : Builder}
+theorem build_ok {size : TypeId → Nat → Nat} {seed : Tw.Snap.Snap} {items : List Item} {b0 : Builder}
     (h0 : Chain size Builder.new b0) (hs : b0.snap = seed) (hok : ∀ it, it ∈ items → ItemOk size it) :
     ∃ r, execBuild.build seed items = .ok r ∧
       ∀ s, r = .ok s → ∃ c, Chain size b0 c ∧ c.snap = s := by
@@ -106,12 +106,12 @@ theorem build_ok {size : TypeId → Nat} {seed : Tw.Snap.Snap} {items : List Ite
 
 /-- the object-size table of the protocol agrees with the sizes the application uses, and knows
 nothing about the registry type and the extended type numbers -/
-structure TableOk (objSize : Nat → Option Nat) (size : TypeId → Nat) : Prop where
+structure TableOk (objSize : Nat → Option Nat) (size : TypeId → Nat → Nat) : Prop where
   registry : objSize typeIdEx = none
   extended : ∀ t, offsetExt ≤ t → objSize t = none
-  ordinal : ∀ o n, 0 < o → o < offsetExt → objSize o = some n → size (.ordinal o) = n
+  ordinal : ∀ o n id, 0 < o → o < offsetExt → objSize o = some n → size (.ordinal o) id = n
 
-theorem sizesOk_of_sized {objSize : Nat → Option Nat} {size : TypeId → Nat} (ht : TableOk objSize size)
+theorem sizesOk_of_sized {objSize : Nat → Option Nat} {size : TypeId → Nat → Nat} (ht : TableOk objSize size)
     {s : Tw.Snap.Snap} (hs : Sized size s) : SizesOk objSize s.raw.items := by
   intro p hp
   by_cases h0 : keyType p.1 = typeIdEx
@@ -121,7 +121,7 @@ theorem sizesOk_of_sized {objSize : Nat → Option Nat} {size : TypeId → Nat} 
       cases hobj : objSize (keyType p.1) with
       | none => rfl
       | some n =>
-        have := ht.ordinal _ n hpos h1 hobj
+        have := ht.ordinal _ n (keyId p.1) hpos h1 hobj
         simp only [szOk, beq_iff_eq]
         rw [← this, (hs p hp).1 hpos h1]
     · rw [ht.extended _ (by omega)]; rfl
@@ -145,7 +145,7 @@ theorem deltaChunks_ok_of_small (tick base crc : Int) (bs : List UInt8) (h : bs.
 
 /-- The glue for one snapshot whose base is an ancestor on the builder chain: it succeeds, or the
 packed delta exceeds the buffer. -/
-theorem sendSnap_concrete {objSize : Nat → Option Nat} {size : TypeId → Nat} (ht : TableOk objSize size)
+theorem sendSnap_concrete {objSize : Nat → Option Nat} {size : TypeId → Nat → Nat} (ht : TableOk objSize size)
     (st : Storage Tw.Snap.Snap) (tick : Int) (T : Tw.Snap.Snap)
     (hbase : Anc size (st.baseOf (execOps objSize) ({ tick := tick, snap := T } :: st.snaps)) T) :
     (∃ x ms, sendSnap (execOps objSize) st tick T
@@ -179,18 +179,18 @@ theorem sendSnap_concrete {objSize : Nat → Option Nat} {size : TypeId → Nat}
 
 /-- every snapshot on the free list was made on the builder chain, and every stored snapshot is an
 ancestor of the newest stored one -/
-structure InvB (size : TypeId → Nat) (y : SysB Tw.Snap.Snap) : Prop where
+structure InvB (size : TypeId → Nat → Nat) (y : SysB Tw.Snap.Snap) : Prop where
   free : ∀ s, s ∈ y.free → Built size s
   stored : ∀ s n, s ∈ y.sys.sender.snaps → y.sys.sender.snaps.head? = some n → Anc size s.snap n.snap
 
 /-- application-level hypothesis on one event: the items are well-typed and type-sized; ready-made
 snapshots are not injected -/
-def EvOk (size : TypeId → Nat) : EvB Tw.Snap.Snap (List Item) → Prop
+def EvOk (size : TypeId → Nat → Nat) : EvB Tw.Snap.Snap (List Item) → Prop
   | .sendItems _ items => ∀ it, it ∈ items → ItemOk size it
   | .other (.send _ _) => False
   | .other _ => True
 
-theorem invB_init (size : TypeId → Nat) : InvB size ({} : SysB Tw.Snap.Snap) where
+theorem invB_init (size : TypeId → Nat → Nat) : InvB size ({} : SysB Tw.Snap.Snap) where
   free := by intro s hs; cases hs
   stored := by intro s n hs; cases hs
 
@@ -212,7 +212,7 @@ theorem setDeltaTick_snaps {S : Type} (st : Storage S) (v : Int) :
     | none => exact hp
     | some d => simp only; split <;> exact hp
 
-theorem invB_of_sender {size : TypeId → Nat} {y : SysB Tw.Snap.Snap} (hinv : InvB size y)
+theorem invB_of_sender {size : TypeId → Nat → Nat} {y : SysB Tw.Snap.Snap} (hinv : InvB size y)
     (sys' : Sys Tw.Snap.Snap) (free' : List Tw.Snap.Snap)
     (hp : sys'.sender.snaps <+: y.sys.sender.snaps)
     (hf : ∀ s, s ∈ free' → s ∈ y.free ∨ ∃ st, st ∈ y.sys.sender.snaps ∧ st.snap = s) :
@@ -238,7 +238,7 @@ theorem mem_drainedBy {S : Type} {st : Storage S} {v : Int} {s : S} (h : s ∈ s
     exact ⟨x, List.mem_of_mem_drop hx, rfl⟩
 
 /-- the seed of `new_builder()` was made on the builder chain -/
-theorem seed_built {size : TypeId → Nat} {y : SysB Tw.Snap.Snap} (hinv : InvB size y) :
+theorem seed_built {size : TypeId → Nat → Nat} {y : SysB Tw.Snap.Snap} (hinv : InvB size y) :
     Built size (y.seed execBuild) := by
   unfold SysB.seed
   cases hh : y.sys.sender.snaps.head? with
@@ -256,7 +256,7 @@ theorem seed_built {size : TypeId → Nat} {y : SysB Tw.Snap.Snap} (hinv : InvB 
 
 /-- One event under the application-level hypotheses: it runs and keeps the invariant, or the
 glue's buffer overflows. -/
-theorem stepB_no_panic {objSize : Nat → Option Nat} {size : TypeId → Nat} (ht : TableOk objSize size)
+theorem stepB_no_panic {objSize : Nat → Option Nat} {size : TypeId → Nat → Nat} (ht : TableOk objSize size)
     {y : SysB Tw.Snap.Snap} (hinv : InvB size y) (e : EvB Tw.Snap.Snap (List Item)) (he : EvOk size e) :
     (∃ y' o, y.step (execOps objSize) execBuild e = .ok (y', o) ∧ InvB size y') ∨
     ((∃ s, y.step (execOps objSize) execBuild e = .panic s) ∧ Oversize objSize) := by
@@ -354,7 +354,7 @@ theorem stepB_no_panic {objSize : Nat → Option Nat} {size : TypeId → Nat} (h
         · exact Or.inr (mem_drainedBy h)
 
 /-- **No panic but the buffer.**  Whole histories under the application-level hypotheses. -/
-theorem runB_no_panic {objSize : Nat → Option Nat} {size : TypeId → Nat} (ht : TableOk objSize size) :
+theorem runB_no_panic {objSize : Nat → Option Nat} {size : TypeId → Nat → Nat} (ht : TableOk objSize size) :
     ∀ (evs : List (EvB Tw.Snap.Snap (List Item))) (y : SysB Tw.Snap.Snap), InvB size y →
       (∀ e, e ∈ evs → EvOk size e) →
       (∃ r, SysB.run (execOps objSize) execBuild y evs = .ok r) ∨
